@@ -235,6 +235,7 @@ PIN_SCRIPTS = {
     "sleep-argument-reads-the-sensor-once": "pot = Potentiometer('A0')\nwhile True:\n    sleep(pot.read())\n    v = pot.read()\n    sleep(pot.read() // 4 + 7)\n    sleep(5)\n",
     "sensor-read-inside-call-arguments-and-conditions": "pot = Potentiometer('A1')\ndef twice(x):\n    return x * 2\nwhile True:\n    a = twice(pot.read())\n    if pot.read() > 100:\n        a = a + 1\n    b = max(pot.read(), 3)\n    sleep(5)\n",
     "chained-comparison-reads-the-sensor-once": "pot = Potentiometer('A2')\nwhile True:\n    hit = 0\n    if 100 < pot.read() < 900:\n        hit = 1\n    ok = 0 <= pot.read() + 1 <= 1024 < 2000\n    sleep(5)\n",
+    "discarded-read-statement-is-still-a-conversion": "pot = Potentiometer('A3')\npot.read()\nwhile True:\n    pot.read()\n    v = pot.read()\n    if v > 0:\n        pot.read()\n    sleep(5)\n",
     "three-potentiometers-interleaved": "p = Potentiometer('A0')\nq = Potentiometer('A1')\nr = Potentiometer('A2')\nwhile True:\n    s = p.read() + q.read() + r.read()\n    t = r.read() - p.read()\n    sleep(5)\n",
 }
 
